@@ -70,6 +70,29 @@ Definition enc_eqvb (n : nat) (a b : list (nat * estep)) : bool :=
   end.
 
 (* ---- decoders ---- *)
+
+(* what a key literal can match: an integer or a byte string *)
+Definition key_norm (lit : string) : option (N + list byte) :=
+  if is_quoted lit then Some (inr (string_bytes (unquote lit)))
+  else match lit with
+       | EmptyString => None
+       | _ => match digits_val 0 lit with Some k => Some (inl k) | None => None end
+       end.
+
+Definition same_key (k k' : string) : bool :=
+  match key_norm k, key_norm k' with
+  | Some (inl a), Some (inl b) => N.eqb a b
+  | Some (inr a), Some (inr b) => list_eqb a b
+  | _, _ => false
+  end.
+
+(* no two entries can match the same key value: which registration wins is then immaterial *)
+Fixpoint keys_distinct (t : list (string * string)) : bool :=
+  match t with
+  | [] => true
+  | (k, _) :: r => andb (negb (existsb (fun kp => same_key k (fst kp)) r)) (keys_distinct r)
+  end.
+
 Fixpoint delem_eqvb (s t : dstep) : bool :=
   match s, t with
   | DInt w le, DInt w' le' => andb (Nat.eqb w w') (order_eqb w le le')
@@ -79,7 +102,8 @@ Fixpoint delem_eqvb (s t : dstep) : bool :=
       andb (andb (andb (Nat.eqb pw pw') (order_eqb pw ple ple')) (Bool.eqb sg sg')) (delem_eqvb e e')
   | DObj a, DObj b => String.eqb a b
   | DDispatch t fw k ue, DDispatch t' fw' k' ue' =>
-      andb (andb (forall2b (fun a b => andb (String.eqb (fst a) (fst b)) (String.eqb (snd a) (snd b))) t t') (Bool.eqb fw fw'))
+      andb (andb (forall2b (fun a b => andb (String.eqb (fst a) (fst b)) (String.eqb (snd a) (snd b))) t t')
+                 (orb (Bool.eqb fw fw') (keys_distinct t)))
            (andb (Nat.eqb k k') (Bool.eqb ue ue'))
   | _, _ => false
   end.
